@@ -4,7 +4,7 @@
 #include "sc3d.hpp"
 using namespace vf;
 
-struct Variant { int mesh; int rot; int trans; int scale; int nperm; int fperm; unsigned long wind; int windkind; };
+struct Variant { int mesh; int rot; int trans; int scale; int nperm; int fperm; unsigned long wind; int windkind; int extra = 0; /* 1 / 2: an unreferenced node (a free slot from the start) stored first / last */ };
 
 static std::vector<sc::Mesh> g_meshes; static std::vector<long> g_exact_vol6;   // 6*volume as an integer, -1 if not an integer mesh
 static std::vector<std::array<double, 9>> g_rots; static std::vector<bool> g_rot_exact;
@@ -22,7 +22,7 @@ static void setup(bool th) {
     if (th) for (int i = 0; i < 24; i++) ids.push_back(i);
     for (int i : ids) { g_rots.push_back(cr[i]); g_rot_exact.push_back(true); }
     g_rots.push_back(rot_z_345()); g_rot_exact.push_back(false); g_rots.push_back(matmul(rot_x_51213(), rot_z_345())); g_rot_exact.push_back(false);
-    g_trans = {{0, 0, 0}, {8, -8, 8}, {1024, 1024, -1024}}; if (th) { g_trans.push_back({0.25, 0, 0}); g_trans.push_back({1048576, -1048576, 1048576}); }
+    g_trans = {{0, 0, 0}, {8, -8, 8}, {1024, 1024, -1024}, {1048576, -1048576, 1048576}}; if (th) { g_trans.push_back({0.25, 0, 0}); g_trans.push_back({-3145728, 2097152, 524288}); }
     g_scales = {1.0, 0.5, 2.0, std::ldexp(1.0, -17)};
 }
 
@@ -37,6 +37,8 @@ static sc::Mesh build(const Variant& v) {
     if (v.fperm) { std::vector<unsigned> t2(m.tri.size()); for (size_t f = 0; f < nf; f++) { size_t g = v.fperm == 1 ? nf - 1 - f : (f + 1) % nf; for (int k = 0; k < 3; k++) t2[3*g+k] = m.tri[3*f+k]; } m.tri = t2; }
     for (size_t f = 0; f < nf; f++) { bool flip = false; switch (v.windkind) { case 0: flip = f < 64 && (v.wind >> f & 1); break; case 1: flip = true; break; case 2: flip = f % 2; break; case 3: flip = (f == v.wind); break; }
         if (flip) std::swap(m.tri[3*f+1], m.tri[3*f+2]); }
+    if (v.extra == 1) { m.pos.insert(m.pos.begin(), {m.pos[3], m.pos[4], m.pos[5]}); for (auto& id : m.tri) id++; }
+    if (v.extra == 2) { m.pos.push_back(m.pos[0]); m.pos.push_back(m.pos[1]); m.pos.push_back(m.pos[2]); }
     return m;
 }
 
@@ -71,7 +73,7 @@ static std::string check(const Variant& v, Metrics* out = nullptr, double* worst
     return err;
 }
 
-static std::string vtext(const Variant& v) { std::ostringstream o; o << v.mesh << " " << v.rot << " " << v.trans << " " << v.scale << " " << v.nperm << " " << v.fperm << " " << v.wind << " " << v.windkind; return o.str(); }
+static std::string vtext(const Variant& v) { std::ostringstream o; o << v.mesh << " " << v.rot << " " << v.trans << " " << v.scale << " " << v.nperm << " " << v.fperm << " " << v.wind << " " << v.windkind << " " << v.extra; return o.str(); }
 static std::string vjson(const Variant& v) { std::ostringstream o; o << "{\"mesh\":\"" << g_meshes[v.mesh].name << "\",\"rotation\":" << v.rot << ",\"translation_in_sizes\":[" << g_trans[v.trans][0] << "," << g_trans[v.trans][1] << "," << g_trans[v.trans][2] << "],\"scale\":" << jnum(g_scales[v.scale]) << ",\"node_perm\":" << v.nperm << ",\"face_perm\":" << v.fperm << ",\"winding_kind\":" << v.windkind << ",\"winding_mask\":" << v.wind << "}"; return o.str(); }
 
 static void report(Result& R, const Variant& v, const std::string& err) {
@@ -83,7 +85,7 @@ static void explore(Result& R) {
     const bool th = R.args.thorough(); setup(th);
     long evals = 0, distinct = 0; double worst_vol = 0; std::map<std::string, long>& tab = R.tables["cases_per_block"];
     // Block A: every input winding pattern (all 2^F for F <= 8; single flips, all, alternating beyond), three placements
-    std::vector<std::array<int, 3>> placements = {{0, 0, 0}, {2, 2, 0}, {(int)g_rots.size() - 1, 1, 1}};
+    std::vector<std::array<int, 3>> placements = {{0, 0, 0}, {2, 2, 0}, {(int)g_rots.size() - 1, 1, 1}, {(int)g_rots.size() - 1, 3, 0}};   // the last one 2^20 mesh sizes from the origin
     for (int mi = 0; mi < (int)g_meshes.size(); mi++) { size_t F = g_meshes[mi].nf();
         std::vector<std::pair<int, unsigned long>> winds;
         if (F <= 8) for (unsigned long w = 0; w < (1ul << F); w++) winds.push_back({0, w}); else { winds.push_back({0, 0}); winds.push_back({1, 0}); winds.push_back({2, 0}); for (size_t f = 0; f < F; f++) winds.push_back({3, f}); }
@@ -109,17 +111,21 @@ static void explore(Result& R) {
             if (!e.empty()) report(R, v, e);
             if (evals % 4000 == 1) R.sample(vjson(v));
         } }
+    // Block C: a node slot that is free from the start (an input point no triangle refers to), stored first or last: the getters range over live nodes only
+    for (int mi = 0; mi < (int)g_meshes.size() && !R.out_of_time(0.9); mi++) for (int ri = 0; ri < (int)g_rots.size(); ri += 2) for (int ti = 0; ti < (int)g_trans.size(); ti++) for (int ex = 1; ex <= 2; ex++) for (int wk = 0; wk < 2; wk++) {
+        Variant v{mi, ri, ti, 0, 0, 0, 0, wk, ex}; std::string e = check(v, nullptr, &worst_vol); evals++; distinct++; tab["free_slot_from_the_start"]++;
+        if (e.rfind("INTERNAL", 0) == 0) { R.internal_error = e; return; } if (!e.empty()) report(R, v, e); }
     if (R.out_of_time(0.9)) R.cap("deadline");
     R["evaluations"] = evals; R["transitions"] = evals; R["states"] = distinct; R["distinct_nontrivial"] = distinct; R["traces_validated_against_impl"] = evals;
     R["meshes"] = g_meshes.size(); R["motions"] = g_rots.size() * g_trans.size() * g_scales.size();
     R.reals["worst_relative_volume_error"] = worst_vol;
     R.strings["rule"] = "a case = (mesh, rotation, translation in mesh sizes, uniform scale, node permutation, face permutation, winding pattern); each builds a real cell, runs initialize_cell_properties and compares volume/area/centroid/box/orientation with a long double reference about the mesh centre (exact integer volume for the five integer meshes), plus invariance and scale laws against the untransformed cell; all cases are distinct by construction";
-    R.assumptions = {"tolerance 1e-9 relative on volume and area, 1e-9*size + 1e-13*|t| on the centroid, exact equality on the box", "translations are multiples of the mesh size up to 1024 (quick) / 2^20 (thorough)", "longest-axis clause only on the two meshes with a unique longest axis (prism, ellipsoid), tolerance 1e-6"};
+    R.assumptions = {"tolerance 1e-9 relative on volume and area, 1e-9*size + 1e-13*|t| on the centroid, exact equality on the box", "translations are multiples of the mesh size up to 2^20 (thorough: also (-3, 2, 0.5) x 2^20 and a quarter size)", "longest-axis clause only on the two meshes with a unique longest axis (prism, ellipsoid), tolerance 1e-6"};
 }
 
 static int replay(const Replay& rp, Result& R) {
     setup(rp.get("tier", "quick") == "thorough");   // the index tables depend on the tier the case came from
-    Variant v; std::istringstream i(rp.get("case")); i >> v.mesh >> v.rot >> v.trans >> v.scale >> v.nperm >> v.fperm >> v.wind >> v.windkind;
+    Variant v; std::istringstream i(rp.get("case")); i >> v.mesh >> v.rot >> v.trans >> v.scale >> v.nperm >> v.fperm >> v.wind >> v.windkind; if (!(i >> v.extra)) v.extra = 0;
     std::string e1 = check(v), e2 = check(v); if (e1 != e2) { printf("replay diverged\n"); return 0; }
     printf("case %s\n%s\n", vjson(v).c_str(), e1.c_str());
     if (!e1.empty()) { R.violation(clause_of(e1), e1, ""); return 1; } return 0;
